@@ -30,8 +30,35 @@ func runC18(c *Ctx) {
 		}
 		fn := funcName(st.Parent())
 		d := describe(v)
+		accepted := `^\(\*Client\)\.cmd\(param0,25,"%s",.*\)#2 == nil$`
+		if g := st.Parent(); fn != "(*Client).Rcpt" && !isExported(g) && g.Parent() == nil && d == "builtin:append(Client.rcpts,slice(alloc:varargs))" {
+			// an unexported helper that records its parameter: judged at its call sites
+			arg := describeVarargs(v.(*ssa.Call).Call.Args[1])
+			idx := -1
+			for i := range g.Params {
+				if arg == fmt.Sprintf("param%d", i) {
+					idx = i
+				}
+			}
+			callers := c.callersOf(g)
+			R.Ob(c.siteKey(st, "rcpts = append(rcpts, <helper parameter>)"), c.P.InstrPos(st), idx >= 0 && len(callers) > 0, "helper "+fn+" appends "+arg)
+			for _, cs := range callers {
+				cc := callCommon(cs)
+				okArg := cc != nil && idx >= 0 && idx < len(cc.Args) && describe(cc.Args[idx]) == "param1" && funcName(cs.Parent()) == "(*Client).Rcpt"
+				R.Ob(c.siteKey(cs, "helper records the accepted recipient"), c.P.InstrPos(cs), okArg, "recording helper called from "+funcName(cs.Parent())+" with a value that is not Rcpt's recipient")
+				c.obFactMatch("append only after the server accepted", cs, accepted, "recipient recorded although RCPT was not accepted")
+			}
+			continue
+		}
 		R.Ob(c.siteKey(st, "rcpts = append(rcpts, to)"), c.P.InstrPos(st), fn == "(*Client).Rcpt" && d == "builtin:append(Client.rcpts,slice(alloc:varargs))" && describeVarargs(v.(*ssa.Call).Call.Args[1]) == "param1", "rcpts becomes "+d+" in "+fn)
-		c.obFactMatch("append only after the server accepted", st, `^\(\*Client\)\.cmd\(param0,25,"%s",.*\)#2 == nil$`, "recipient recorded although RCPT was not accepted")
+		c.obFactMatch("append only after the server accepted", st, accepted, "recipient recorded although RCPT was not accepted")
+	}
+	if f := c.A.Func("(*Client).Rcpt"); f != nil {
+		// ... and EVERY accepted RCPT is recorded (the server answers once per accepted RCPT command, repeated addresses included)
+		for _, site := range s.Find(f, "ccmd") {
+			site := site
+			c.obFollowH("every accepted RCPT is recorded", f, func(in ssa.Instruction) bool { return in == site }, []string{"st:Client.rcpts"}, describe(site.(ssa.Value))+"#2 == nil")
+		}
 	}
 	okMail, okClose := false, false
 	whereMail := ""
